@@ -300,3 +300,76 @@ def all_programs(level):
         yield d, body
     for d, e in part_b(level):
         yield d, wrap_b(e)
+
+
+# ------------------------------------------------------------------------------------------ part C (C09)
+# programs rich in what the simplifier touches: all-literal arithmetic (incl. overflowing, dividing by zero,
+# non-numeric literals), constant-bound lets (shadowed / assigned / captured / unused), literal and propagated tests,
+# value-only statements in non-tail sequence positions next to effectful ones, rest parameters.
+
+ARITH_OPS = ["+", "-", "*", "/", "quotient", "remainder", "<", "<=", "=", "eq?"]
+ARITH_LITS = ["0", "1", "-1", "2", "7", "4611686018427387903", "-4611686018427387904", "4611686018427387904",
+              "1.5", "1/2", "\"s\"", "#\\a", "#t", "'sym", "'()"]
+ARITH_LITS_SMALL = ["0", "2", "-1", "4611686018427387903", "1.5", "#t"]
+
+
+def part_c(level):
+    lits = ARITH_LITS
+    for op in ARITH_OPS:
+        for a in lits:
+            for b in lits:
+                yield (("C-arith", op), "(%s %s %s)" % (op, a, b))
+    small = ARITH_LITS_SMALL if level == 0 else ARITH_LITS[:10]
+    for op1 in ARITH_OPS[:6]:
+        for op2 in ARITH_OPS[:6]:
+            for a in small:
+                for b in small:
+                    for c in small[:4]:
+                        yield (("C-arith2", op1, op2), "(%s (%s %s %s) %s)" % (op1, op2, a, b, c))
+                        yield (("C-arith2r", op1, op2), "(%s %s (%s %s %s))" % (op1, c, op2, a, b))
+    for op in ARITH_OPS[:4]:
+        for a in small:
+            yield (("C-unary", op), "(%s %s)" % (op, a))
+            yield (("C-nullary", op), "(list (%s) (%s %s %s %s))" % (op if op in "+*" else "+", op, a, a, a))
+    # constant-bound lets
+    bodies = [
+        "(+ a 1)", "(list a a)", "(let ((a 9)) (list a))", "(begin (set! a (list a)) a)", "((lambda () a))",
+        "(let ((f (lambda () a))) (set! a 3) (list (f) a))", "'unused", "(if a 'yes 'no)", "(let ((b a)) (let ((a b)) (+ a b)))",
+        "(let loop ((i 0)) (if (< i 2) (loop (+ i 1)) (list i a)))", "(* a (obs 2))", "(begin a (obs 'x) a)",
+        "(list (quotient a 0))", "(lambda-test a)",
+    ]
+    inits = ["1", "0", "#f", "'s", "\"str\"", "(obs 4)", "(+ 1 2)", "4611686018427387903", "(if #f #f)"]
+    for b in bodies:
+        for i in inits:
+            body = b.replace("(lambda-test a)", "((lambda (x . r) (list x r a)) a)")
+            yield (("C-let", b[:12]), "(let ((a %s)) %s)" % (i, body))
+            yield (("C-let2", b[:12]), "(let ((z (obs 'z)) (a %s) (y 2)) (list z y %s))" % (i, body))
+            yield (("C-let*", b[:12]), "(let* ((a %s) (c (list a))) (list c %s))" % (i, body))
+    # literal and propagated tests
+    tests = ["#t", "#f", "0", "'()", "(let ((t #f)) t)", "(let ((t 1)) (if t #f #t))", "(not 1)", "(< 1 2)", "(= 1 1.0)", "(eq? 'a 'a)",
+             "(obs #f)", "(begin (obs 't) #t)"]
+    for t in tests:
+        for t2 in tests[:6]:
+            yield (("C-if", t[:8]), "(if %s (begin (obs 'then) (if %s 1 2)) (begin (obs 'else) 3))" % (t, t2))
+            yield (("C-cond", t[:8]), "(cond (%s 'a) (%s (obs 'b)) (else 'c))" % (t, t2))
+            yield (("C-and", t[:8]), "(list (and %s %s) (or %s %s))" % (t, t2, t, t2))
+    # value-only statements in sequences
+    stmts = ["1", "x", "(lambda () 1)", "(obs 's1)", "\"str\"", "(+ 1 2)", "(set! x (+ x 1))", "(if #f #f)", "'(q)", "(car (list (obs 's2)))"]
+    for a in stmts:
+        for b in stmts:
+            yield (("C-seq",), "(let ((x 5)) (begin %s %s (list x)))" % (a, b))
+            yield (("C-seq-body",), "(let ((x 5)) ((lambda () %s %s x)))" % (a, b))
+            yield (("C-seq-tail",), "(let ((x 5)) (list (begin %s %s) x))" % (a, b))
+    # rest parameters
+    for use in ["'none", "r", "(begin (set! r 1) 'set)", "((lambda () r))", "(begin (set! r (list r)) r)", "(length r)", "(if #f r 'dead)"]:
+        for args in ["", "1", "1 2 3"]:
+            yield (("C-rest",), "(list 'pre ((lambda r %s) %s) 'post)" % (use, args))
+            yield (("C-rest1",), "(list 'pre ((lambda (a . r) (list a %s)) 0 %s) 'post)" % (use, args))
+            yield (("C-rest-def",), "(let () (define (f . r) %s) (list 'pre (f %s) (f %s 9) 'post))" % (use, args, args))
+
+
+def c09_programs(level):
+    for d, body in all_programs(level):
+        yield d, body
+    for d, body in part_c(level):
+        yield d, body
